@@ -215,6 +215,9 @@ func fixedMatrices(openValues []int, localOK bool) []MatSpec {
 }
 
 func exhaustiveC08(thorough bool, emit func(AlignCase) bool) {
+	if !realAlignCases([]int{0}, []int{1025}, emit) || !realAlignCases([]int{-2, -6}, nil, emit) {
+		return
+	}
 	maxLen := 4
 	if thorough {
 		maxLen = 5
